@@ -443,7 +443,7 @@ func propC17(c c17Case) hh.Verdict {
 
 func genC17(rt *rapid.T, mode string) c17Case {
 	cfg := model.DefaultCfg(mode)
-	cfg.POpts = 0
+	cfg.POpts, cfg.PComplex = 0, 0 // (this check applies builder calls itself; complex tests are not builder options)
 	g := model.NewGen(rt, cfg)
 	c := c17Case{Mode: mode}
 	c.Kind = rapid.SampledFrom([]string{model.KString, model.KString, model.KInt, model.KInt32, model.KFloat64, model.KBool, model.KTime, model.KSlice}).Draw(rt, "kind")
